@@ -6,6 +6,7 @@ mod c14;
 mod c15;
 mod c16;
 mod c17;
+mod c18;
 mod fault;
 mod plonkrun;
 mod rec;
@@ -64,6 +65,7 @@ fn main() {
         "c15" => c15::main(rest),
         "c16" => c16::main(rest),
         "c17" => c17::main(rest),
+        "c18" => c18::main(rest),
         "randshape" => {
             let seed: u64 = rest[0].parse().unwrap();
             println!("{}", serde_json::to_string(&shapes::random_shape(seed)).unwrap());
